@@ -9,8 +9,20 @@ let ckind = function
   | ":c_pointer" -> CPointer | ":c_memcmp" -> CMemcmp | ":c_memcmp0" -> CMemcmpZero | ":c_bits" -> CBits | ":c_failtext" -> CFailText
   | ":c_fail" -> CFail | ":c_check" -> CCheck | ":m_compare" -> MCompare
   | t -> raise (Bad ("check kind " ^ t))
+(* statements inside a try block: ":t :<hk> <n> inner* <m> inner*" = STry, ":w :<ek> <file> <line> <n> inner*" = SThrows (CHECK_THROWS) *)
+let inner c = match next c with
+  | ":n" -> BNop | ":c" -> BCheck
+  | ":k" -> let k = ckind (next c) in let a = bool_tok (next c) in let f = n_tok (next c) in let l = n_tok (next c) in BCheckK (k, a, f, l)
+  | ":x" -> let f = n_tok (next c) in let l = n_tok (next c) in BFailX (f, l)
+  | ":j" -> let f = n_tok (next c) in let l = n_tok (next c) in BFailC (f, l)
+  | ":s" -> BThrowStd | ":o" -> BThrowOther
+  | t -> raise (Bad ("statement inside a try block " ^ t))
+let ekind = function ":std" -> EStd | ":int" -> EInt | ":unrel" -> EUnrel | t -> raise (Bad ("exception type " ^ t))
+let hkind = function ":all" -> HAll | t -> HType (ekind t)
 let base c = match next c with
   | ":n" -> SNop | ":c" -> SCheck
+  | ":t" -> let h = hkind (next c) in let blk = counted c inner in let hd = counted c inner in STry (blk, h, hd)
+  | ":w" -> let e = ekind (next c) in let f = n_tok (next c) in let l = n_tok (next c) in let blk = counted c inner in SThrows (e, blk, f, l)
   | ":k" -> let k = ckind (next c) in let a = bool_tok (next c) in let f = n_tok (next c) in let l = n_tok (next c) in SCheckK (k, a, f, l)
   | ":x" -> let f = n_tok (next c) in let l = n_tok (next c) in SFailX (f, l)
   | ":j" -> let f = n_tok (next c) in let l = n_tok (next c) in SFailC (f, l)
@@ -36,6 +48,8 @@ let scenario ts =
   let cli = bool_tok (next c) in let rethrow = bool_tok (next c) in let filter = bool_tok (next c) in
   let runign = bool_tok (next c) in let repeat = n_tok (next c) in
   let tests = counted c test in
+  (* ":mac": the tests are made by the public macros (TEST_GROUP / TEST / IGNORE_TEST): the same program for the model *)
+  (match peek c with Some ":mac" -> ignore (next c) | _ -> ());
   let io = match peek c with
     | Some ":io" -> ignore (next c);
         let sink = n_tok (next c) in let sep = bool_tok (next c) in let v = bool_tok (next c) in let col = bool_tok (next c) in let cap = n_tok (next c) in
@@ -52,8 +66,9 @@ let prep r =
     | Some m -> [":s"; pbool m.m_ok; (match m.m_nfail with None -> "~" | Some n -> pn n); pn m.m_tests; pn m.m_run; pn m.m_checks; pn m.m_ign; pn m.m_filt] in
   let ct = match r.r_counters with None -> ["~"]
     | Some k -> [":k"; pn k.k_tests; pn k.k_run; pn k.k_checks; pn k.k_fail; pn k.k_filt; pn k.k_ign] in
+  let sb = List.concat_map (fun u -> [pn u.u_test; pn u.u_phase; pn u.u_idx; pn u.u_sub]) r.r_subs in
   [Printf.sprintf "%x" (List.length r.r_events)] @ ev @ [Printf.sprintf "%x" (List.length r.r_fails)] @ fl
-  @ [Printf.sprintf "%x" (List.length r.r_after)] @ af @ sm @ ct
+  @ [Printf.sprintf "%x" (List.length r.r_after)] @ af @ sm @ ct @ [Printf.sprintf "%x" (List.length r.r_subs)] @ sb
 let psum m = [":s"; pbool m.m_ok; (match m.m_nfail with None -> "~" | Some n -> pn n); pn m.m_tests; pn m.m_run; pn m.m_checks; pn m.m_ign; pn m.m_filt]
 let pobs = function
   | XPlain o ->
@@ -87,7 +102,9 @@ let rep_of c =
               let e = n_tok (next c) in let f = n_tok (next c) in
               Some { k_tests = a; k_run = b; k_checks = cc; k_fail = d; k_filt = e; k_ign = f }
     | t -> raise (Bad ("counters " ^ t)) in
-  { r_events = ev; r_fails = fl; r_after = af; r_summary = sm; r_counters = ct }
+  let sb = counted c (fun c -> let t = n_tok (next c) in let p = n_tok (next c) in let i = n_tok (next c) in let j = n_tok (next c) in
+                               { u_test = t; u_phase = p; u_idx = i; u_sub = j }) in
+  { r_events = ev; r_fails = fl; r_after = af; r_summary = sm; r_counters = ct; r_subs = sb }
 let sum_of c =
   let ok = bool_tok (next c) in let nf = (match next c with "~" -> None | t -> Some (n_tok t)) in
   let a = n_tok (next c) in let b = n_tok (next c) in let cc = n_tok (next c) in let d = n_tok (next c) in let e = n_tok (next c) in
